@@ -1,5 +1,6 @@
 import DcVerif.Model.CausalGraph
 import DcVerif.Props.C08Gen
+import DcVerif.Spec.ShortestPath
 /-! # The storage half of the causal-graph model is the ultragraph model (add-only histories)
 
 `Model/CausalGraph.lean` (C01, C10) mirrors by hand the part of ultragraph that `CausaloidGraph` uses. This file relates it to
@@ -169,6 +170,24 @@ theorem c01store_last_index (enc : CausalGraph.Node → Nat) (ops : List CausalG
   refine ⟨h.len, ?_⟩
   unfold IdStore.len CausalGraph.nodeCount
   rw [h.noRemoved, h.upper]; simp
+
+/-- the edge weights the shortest-path statements of C10 read (`CausalGraph.weight`) are the weights of the graph the ultragraph
+    model holds (`Spec.ShortestPath.weights` of its abstraction — what C15's oracle judges `astar` against), for every pair -/
+theorem c01store_weights (enc : CausalGraph.Node → Nat) (ops : List CausalGraph.Op) :
+    CausalGraph.weight (CausalGraph.build ops) =
+      Spec.ShortestPath.weights (abs (C08Gen.genRun init (ops.map (toU enc))).1) := by
+  have hu : (C08Gen.genRun init (ops.map (toU enc))).1 = (Model.UGraph.run .repaired init (ops.map (toU enc))).1 := by
+    rw [C08Gen.gen_run _ Model.UGraph.wf_init]
+  funext a b
+  unfold CausalGraph.weight Spec.ShortestPath.weights abs
+  rw [hu, (sim_build enc ops).adj]
+
+/-- … and so are the cells: `has_edge` of the matrix is `hasEdge` of the causal-graph model -/
+theorem c01store_cells (enc : CausalGraph.Node → Nat) (ops : List CausalGraph.Op) (a b : Nat) :
+    (C08Gen.genRun init (ops.map (toU enc))).1.hasCell a b = CausalGraph.hasEdge (CausalGraph.build ops) a b := by
+  rw [C08Gen.gen_run _ Model.UGraph.wf_init]
+  unfold hasCell CausalGraph.hasEdge
+  rw [(sim_build enc ops).adj]
 
 /-- non-vacuity: root, two nodes, an accepted edge, a refused duplicate and a refused edge to an absent node -/
 example :
